@@ -95,7 +95,9 @@ def default_host(type_s, d):
     s = S.Spec()
     s.add(
         S.TypeDef("enum", "Dir", values=[S.EV("UP"), S.EV("DOWN"), S.EV("LEFT", deprecation="no")]),
-        S.TypeDef("input", "Point", fields=[S.IV("x", "Int", S.Default("0", 0)), S.IV("y", "Int"), S.IV("label", "String")]),
+        S.TypeDef("input", "Point", fields=[S.IV("x", "Int", S.Default("0", 0)), S.IV("y", "Int"), S.IV("label", "String"),
+                                             # non-null with its own default: may be left out of any Point value
+                                             S.IV("n", "Int!", S.Default("10", 10))]),
         S.TypeDef("scalar", "Any"),
         S.TypeDef("input", "Host", fields=[S.IV("before", "Int"), S.IV("f", type_s, copy.deepcopy(d)), S.IV("after", "Int")]),
         S.TypeDef("object", "Query", fields=[
